@@ -257,11 +257,22 @@ def switch_pred(fn, bb):
     return origin_of_operand(fn, t.discr)
 
 
+TWO_VARIANT = {"std::option::Option": 2, "std::result::Result": 2, "std::ops::ControlFlow": 2}
+
+
 def switch_edges(fn, bb):
-    """list of (label, target): label is the int value or 'else'"""
+    """list of (label, target): label is the int value or 'else'. For a discriminant switch over a two-variant enum
+    that names only one variant (`if let Some(x) = ..` lowers to [1 -> .., otherwise -> ..]) the otherwise edge is
+    labelled with the other variant, so `if let`/`let else` and a two-arm `match` give the same labels."""
     t = fn.blocks[bb].term
-    out = [(v, tgt) for v, tgt in t.j["arms"]]
-    out.append(("else", t.j["otherwise"]))
+    arms = t.j["arms"]
+    out = [(v, tgt) for v, tgt in arms]
+    other = "else"
+    if len(arms) == 1 and arms[0][0] in (0, 1):
+        ty = discr_type_of_switch(fn, bb)
+        if ty is not None and TWO_VARIANT.get(ty) == 2:
+            other = 1 - arms[0][0]
+    out.append((other, t.j["otherwise"]))
     return out
 
 
@@ -335,6 +346,60 @@ def dominating_guards(fn, site_bb, _depth=0):
                         if not any(g2["bb"] == g["bb"] for g in out):
                             out.append(g2)
     return out
+
+
+_NEG = {"eq": "ne", "ne": "eq", "lt": "ge", "ge": "lt", "le": "gt", "gt": "le"}
+_SWAP = {"eq": "eq", "ne": "ne", "lt": "gt", "gt": "lt", "le": "ge", "ge": "le"}
+_BINREL = {"Eq": "eq", "Ne": "ne", "Lt": "lt", "Le": "le", "Gt": "gt", "Ge": "ge"}
+
+
+def norm_guards(gs):
+    """Normal form of branch outcomes, insensitive to how the test was spelled: a list of atoms
+    {"rel": eq|ne|lt|le|gt|ge, "a": Origin, "b": Origin, "gd": guard} that are TRUE at the site.
+    `a < b` taken false, `a >= b` taken true and `!(a < b)` taken true all give (ge, a, b); `x == y`/`x != y` through
+    PartialEq::eq/ne likewise; an integer/enum switch arm gives (eq, scrutinee, const) and its `otherwise` edge one
+    (ne, scrutinee, const) atom per arm. Boolean tests that are not comparisons give (eq|ne, pred, True)."""
+    out = []
+    for gd in gs:
+        pr = gd["pred"]
+        truth = gd["bool"]
+        core = pr.strip()
+        while core.k == "un" and core.a == "Not" and core.kids and truth is not None:
+            core = core.kids[0].strip()
+            truth = not truth
+        if truth is not None:
+            rel = None
+            if core.k == "bin" and core.a in _BINREL:
+                rel = _BINREL[core.a]
+            elif core.k == "call" and core.a["name"] in ("eq", "ne", "lt", "le", "gt", "ge") and len(core.kids) == 2:
+                rel = core.a["name"]
+            if rel is not None:
+                if not truth:
+                    rel = _NEG[rel]
+                out.append({"rel": rel, "a": core.kids[0], "b": core.kids[1], "gd": gd})
+            else:
+                out.append({"rel": "eq" if truth else "ne", "a": core, "b": Origin("const", {"v": True, "k": "bool"}), "gd": gd})
+            continue
+        # integer / discriminant switch
+        labs = gd["labels"]
+        if labs and labs != ["else"] and all(isinstance(l, int) for l in labs) and len(labs) == 1:
+            out.append({"rel": "eq", "a": core, "b": Origin("const", {"v": labs[0], "k": "int"}), "gd": gd})
+        elif labs == ["else"]:
+            for l in gd.get("all_labels", []):
+                if isinstance(l, int):
+                    out.append({"rel": "ne", "a": core, "b": Origin("const", {"v": l, "k": "int"}), "gd": gd})
+    return out
+
+
+def atom_holds(atoms, rel, pa, pb):
+    """is the relation `a rel b` among the normalised atoms, for operands selected by the predicates pa / pb (also
+    tried with the operands swapped)"""
+    for at in atoms:
+        if at["rel"] == rel and pa(at["a"]) and pb(at["b"]):
+            return at
+        if at["rel"] == _SWAP[rel] and pa(at["b"]) and pb(at["a"]):
+            return at
+    return None
 
 
 def guards_fmt(gs):
